@@ -39,11 +39,23 @@ THEOREMS = [
     'PbBss.C17.pca_same_direction',
     'PbBss.C17.rank_one_estimate_fixed',
     'PbBss.C17.ideal_pipeline_sir_partial',
+    'PbBss.C17.two_level_mask_psd',
+    'PbBss.C17.two_level_noise_psd',
+    'PbBss.C17.mvdr_invariant_under_target_leak',
+    'PbBss.C17.mvdr_leak_free_of_leaky',
+    'PbBss.C17.leaky_mvdr_leakage_bound',
+    'PbBss.C17.two_level_pipeline_sir_partial',
+    'PbBss.C17.em_posterior_psd',
 ]
 ASSUMPTIONS = [
     'PARTIAL: the 99 % MAP-accuracy and 30 dB SIR thresholds with ESTIMATED masks (EM posteriors after DHTV + oracle '
     'alignment) are empirical - decided by the search on the real code only; no theorem covers EM convergence from the '
     'blurred start or DHTV convergence (C16 P2)',
+    'beyond ideal masks: TWO-LEVEL masks (g on the true class of a frame, h elsewhere - exactly what the EM fixed-point theorems '
+    'of C03 give in the balanced scene; em_posterior_psd states it for eStep(fit n) of the cACG mixture itself) give the '
+    'mass-weighted combination of the ideal class PSDs, the noise PSD then contains the target direction, and the MVDR-type '
+    'beamformer built from that leaky noise PSD with the TRUE steering vector is the leak-free one (MPDR = MVDR) and obeys the same '
+    '30 dB bound (two_level_pipeline_sir_partial); not covered: steering-vector / rank-one estimates from the leaky target PSD',
     'theorems cover the ideal-mask model: noise PSD = sum_{j != k} sigma_j a_j a_j^H + eps 1 (sigma_j >= 0, eps > 0), '
     'rank-one target sigma_k a_k a_k^H, existence of a zero-forcing vector v (v^H a_k = 1, v^H a_j = 0), solver contract '
     'Phi_nn u = a_k (np.linalg.solve), generalised-eigenvector contract Phi_xx w = lambda Phi_nn w with lambda != 0 (eigh)',
